@@ -203,7 +203,9 @@ def write_pin(path, table):
             fh.write("\t".join(fmt_cell(v) for v in r) + "\n")
 
 
-def write_parquet(path, table, row_group_size=None):
+def write_parquet(path, table, row_group_size=None, dict_strings=False):
+    """dict_strings: string columns are stored dictionary-typed (what pandas writes for a Categorical column and what
+    many Arrow-based tools write for low-cardinality strings)."""
     import pyarrow as pa
     import pyarrow.parquet as pq
 
@@ -222,6 +224,8 @@ def write_parquet(path, table, row_group_size=None):
             typ = pa.string()
             vals = [None if v is None else str(v) for v in vals]
         arrays[c] = pa.array(vals, type=typ)
+        if dict_strings and typ == pa.string() and len(set(vals)) <= max(4, len(vals) // 10):
+            arrays[c] = arrays[c].dictionary_encode()  # low-cardinality strings only (file names, not identifiers)
     tbl = pa.table(arrays)
     kw = {}
     if row_group_size:
@@ -229,9 +233,9 @@ def write_parquet(path, table, row_group_size=None):
     pq.write_table(tbl, path, **kw)
 
 
-def write_table(path, table, row_group_size=None):
+def write_table(path, table, row_group_size=None, dict_strings=False):
     if str(path).endswith(".parquet"):
-        write_parquet(path, table, row_group_size)
+        write_parquet(path, table, row_group_size, dict_strings=dict_strings)
     else:
         write_pin(path, table)
 
